@@ -417,7 +417,12 @@ mod astress {
     }
   }
 
+  /// stuck cases so far in this process: each costs its whole 30 s deadline, so after a few of them the
+  /// verdict is clear and the rest of the run is skipped (the monitor lines already printed decide)
+  static STUCK: AtomicUsize = AtomicUsize::new(0);
+
   pub fn run_case(id: &str, rng: &mut Rng) -> String {
+    if STUCK.load(Ordering::SeqCst) >= 3 { return String::new(); }
     verif_clock::unfreeze();
     let callers = rng.range(2, 4) as usize;
     let slow = *rng.pick(&[0u32, 5, 20, 60]);
@@ -448,6 +453,7 @@ mod astress {
     let n_loads = loads.load(Ordering::SeqCst);
     tr.line(&format!("fetch_all 7"), &format!("{} loads={n_loads}", res.iter().map(|r| r.map_or("stuck".to_string(), |v| v.to_string())).collect::<Vec<_>>().join(",")));
     if res.iter().any(|r| r.is_none()) {
+      STUCK.fetch_add(1, Ordering::SeqCst);
       tr.monitor("loader:async-caller-pending-never-woken-after-load-completed", &format!("{} of {callers} async callers were still Pending 30 s after start although the loader ran {n_loads} time(s)", res.iter().filter(|r| r.is_none()).count()));
     }
     if let Some(bad) = res.iter().flatten().find(|v| **v == 0 || **v as usize > n_loads) {
